@@ -75,6 +75,9 @@ HAND_SEEDS = [
     "query A { f } query B { q { f } }",
     "{ q { q { q { f } } } l { l { n } } }",
     "{ f(a: \"\\",
+    "mutation { ...F } fragment F on Mutation { m ...F }",
+    "subscription { ...F } fragment F on Subscription { ...G } fragment G on Subscription { s ...F }",
+    "{ ...F } fragment F on Query { f ...F }",
 ]
 VALUE_SEEDS = ['"x"', "[1, {a: $v}]", '{a: "\\u{1F600}", b: [null, true, E]}', '"""b"""', "-1.5e3", "$v"]
 TYPE_SEEDS = ["[[Int!]]!", "T", "[T]!"]
